@@ -56,6 +56,14 @@ def h_step(w):
             return a is b
         return bool(_np.allclose(_np.asarray(a.getPosition().gTAA(), dtype=float), _np.asarray(b.getPosition().gTAA(), dtype=float), atol=1e-12))
 
+    def register(node, p):
+        # the real R-tree hands back pickled copies, so the concrete replay identifies nodes by pose: coincident poses would be ambiguous
+        if not w.symbolic:
+            for n, _ in known:
+                if same(n, node):
+                    raise HarnessReject('two harness nodes at the same pose: identity by pose is ambiguous')
+        known.append((node, p))
+
     def ix(node):
         for k, (n, _) in enumerate(known):
             if same(n, node):
@@ -79,12 +87,12 @@ def h_step(w):
 
     distf = lambda x, y: dist_nodes(ix_pos(x), ix_pos(y))
     root = planner.r6_tree_graph.getAll()[0].object
-    known.append((root, o))
+    register(root, o)
     pre = [0]
     for k in range(w.params.get('pre', 1)):
         p = pos('n%d' % k)
         node = pp.PathNode(mk(p))
-        known.append((node, p))
+        register(node, p)
         pi_ = pre[w.params.get('parents', (0, 0))[k]]
         par = known[pi_][0]
         node.cost = distf(node.getPosition(), par.getPosition()) + par.getCost()
@@ -103,7 +111,7 @@ def h_step(w):
             raise HarnessReject('more than two rejected draws')
         p = pos('s%d' % len(draws))
         n = pp.PathNode(mk(p))
-        known.append((n, p))
+        register(n, p)
         draws.append(len(known) - 1)
         return n
 
